@@ -18,9 +18,10 @@
       (rdflib refuses a literal with both a language and a datatype, so the sum type is exact);
     * a SELECT result is a list of variable names and rows *aligned* to it (`none` = unbound): the
       observation `[row.get(v) for v in result.vars]` of a binding dict; ASK is a boolean;
-    * JSON and XML are trees (`Json`, `Xml`); the byte level (`json`, `XMLGenerator` escaping, expat,
-      ElementTree, Python's `csv`) is an external, except for the two XML facts that matter to the
-      property and are modelled in `wireText`: end-of-line normalisation and the XML 1.0 `Char` range.
+    * JSON and XML are trees here (`Json`, `Xml`) and CSV a field table; the character level of the strings in them
+      (`json` string escaping / scanning, `csv` quoting / reader state machine, `xml.sax.saxutils` escaping / XML 1.0
+      reader) is modelled in `Text.lean` (round g).  `wireText` below is the earlier, coarser model of the two XML
+      facts that matter to the property: end-of-line normalisation and the XML 1.0 `Char` range.
     * `Literal(lex, datatype=…)` re-normalises lexical forms of known datatypes (C09); the model's
       `mkLiteral` does not: the terms of the quantifier are the fixed points of that normalisation
       (every term rdflib hands out under the default `NORMALIZE_LITERALS`).
